@@ -280,9 +280,11 @@ class QintImp(int, Qtype):
     @classmethod
     def sub(cls, tleft: TExp, tright: TExp) -> TExp:
         """Subtract two Qint"""
-        an = cls.bitwise_not(cls.fill(tleft))
-        su = cls.add(an, cls.fill(tright))
-        return cls.bitwise_not(su)
+        # Complement at the width of the wider operand
+        t = cls if cls.BIT_SIZE >= len(tright[1]) else cast(Qtype, tright[0])
+        an = t.bitwise_not(t.fill(tleft))
+        su = t.add(an, t.fill(tright))
+        return t.bitwise_not(su)
 
     @classmethod
     def mod(cls, tleft: TExp, tright: TExp) -> TExp:  # noqa: C901
